@@ -361,9 +361,45 @@ pub fn split_header(out: &[u8], _n: usize) -> (Vec<String>, Vec<u8>) {
 /// makes the rest equal to (or, failing that, start like) the expectation is taken, otherwise all leading
 /// marker lines are dropped.
 pub fn program_stdout(full: &[u8], expected: &[u8]) -> Vec<u8> {
+    program_stdout_mode(full, expected, false)
+}
+
+/// Length of the SGR escape sequences (`ESC [ ... m`) a text starts with.
+fn sgr_prefix(t: &[u8]) -> usize {
+    let mut p = 0usize;
+    while t[p..].starts_with(b"\x1b[") {
+        match t[p + 2..].iter().position(|&b| !(b.is_ascii_digit() || b == b';')) {
+            Some(e) if t[p + 2 + e] == b'm' => p += 2 + e + 1,
+            _ => break,
+        }
+    }
+    p
+}
+
+/// Is this the start of a log line: `==> `, in colour mode with SGR sequences before and inside the marker.
+fn log_line_start(t: &[u8], colour: bool) -> bool {
+    if !colour {
+        return t.starts_with(b"==> ");
+    }
+    let mut p = sgr_prefix(t);
+    if !t[p..].starts_with(b"==>") {
+        return false;
+    }
+    p += 3;
+    p += sgr_prefix(&t[p..]);
+    t[p..].starts_with(b" ")
+}
+
+/// The same split for runs with `--color always`: log lines carry SGR sequences; everything after the
+/// line break that ends the last log line is the program's.
+pub fn program_stdout_colour(full: &[u8], expected: &[u8]) -> Vec<u8> {
+    program_stdout_mode(full, expected, true)
+}
+
+fn program_stdout_mode(full: &[u8], expected: &[u8], colour: bool) -> Vec<u8> {
     let mut cuts = vec![0usize];
     let mut pos = 0usize;
-    while full[pos..].starts_with(b"==> ") {
+    while log_line_start(&full[pos..], colour) {
         match full[pos..].iter().position(|&b| b == b'\n') {
             Some(e) => {
                 pos += e + 1;
@@ -483,7 +519,8 @@ pub fn real_run(sc: &Scenario, level: u8, tag: &str) -> crate::real::RealOut {
     std::fs::create_dir_all(&dir).expect("mkdir");
     let path = dir.join(&sc.file_name);
     std::fs::write(&path, sc.file_content()).expect("write");
-    let args: Vec<String> = vec!["run".into(), format!("-O{}", level), "--color".into(), "never".into(), path.to_string_lossy().into_owned()];
+    let colour = if sc.knob("colour") == 1 { "always" } else { "never" };
+    let args: Vec<String> = vec!["run".into(), format!("-O{}", level), "--color".into(), colour.into(), path.to_string_lossy().into_owned()];
     let chunks = crate::real::chunks_from_plan(&sc.plan, 64);
     let r = crate::real::run(&bin, &args, None, &sc.stdin, &chunks, std::time::Duration::from_secs(60)).expect("spawn");
     let _ = std::fs::remove_file(&path);
